@@ -75,6 +75,9 @@ void *malloc(size_t len)
     if (critical_context_level() > 0)
         abort();
 
+    if (len > (size_t)-1 - __WORDSIZE)
+        return 0; /* rounding len up below would wrap around */
+
     igris::syslock_guard lguard;
     __allocation_counter++;
     assert(__allocation_counter < 100);
